@@ -266,6 +266,21 @@ def run_impl(case, exe, timeout=20, keep_dir=None):
 def hx(b):
     return b.hex()
 
+def glibc_rand(seed, n):
+    """the rand() sequence of glibc after srand(seed) (TYPE_3 additive feedback generator)"""
+    r = [0] * (344 + n)
+    r[0] = seed & 0xffffffff
+    for i in range(1, 31):
+        prev = r[i-1] if r[i-1] < 2**31 else r[i-1] - 2**32
+        r[i] = (16807 * prev) % 2147483647
+    for i in range(31, 34):
+        r[i] = r[i-31]
+    for i in range(34, 344 + n):
+        r[i] = (r[i-31] + r[i-3]) & 0xffffffff
+    return [r[i] >> 1 for i in range(344, 344 + n)]
+
+RAND_LINE = 'rand ' + ' '.join(str(x) for x in glibc_rand(1, 600))
+
 def model_input(cases, fuel=60000):
     out = []
     for i, c in enumerate(cases):
@@ -279,6 +294,7 @@ def model_input(cases, fuel=60000):
         out.append('stdin ' + hx(c.stdin))
         for k in sorted(c.files):
             out.append('file %s %s' % (hx(k.encode('latin-1')), hx(c.files[k])))
+        out.append(RAND_LINE)
         out.append('run')
     return ('\n'.join(out) + '\n').encode()
 
